@@ -225,11 +225,12 @@ func ActionStyledValuesDescribed(values ...string) Action {
 // ActionMessage displays a help messages in places where no completions can be generated.
 func ActionMessage(msg string, args ...interface{}) Action {
 	return ActionCallback(func(c Context) Action {
+		message := msg
 		if len(args) > 0 {
-			msg = fmt.Sprintf(msg, args...)
+			message = fmt.Sprintf(msg, args...)
 		}
 		a := ActionValues()
-		a.meta.Messages.Add(stripansi.Strip(msg))
+		a.meta.Messages.Add(stripansi.Strip(message))
 		return a
 	})
 }
